@@ -837,6 +837,37 @@ CORNER_MALFORMED = [
 ]
 
 
+def _define_fun_sort_matrix():
+    # a definition whose body does not have the declared result sort; the
+    # body is a declared symbol, a parameter or a compound term (never a
+    # ground integer term under Real: the parser documents that leniency)
+    sorts = [('Int', '(+ zd_Int 1)', '(* 2 zp)'),
+             ('Real', '(+ zd_Real 1.5)', '(- zp)'),
+             ('Bool', '(not zd_Bool)', '(and zp zp)'),
+             ('(_ BitVec 4)', '(bvadd zd_BV zd_BV)', '(bvnot zp)'),
+             ('String', '(str.++ zd_String zd_String)', '(str.++ zp zp)'),
+             ('(Array Int Int)', '(store zd_Arr 0 1)', '(store zp 1 2)')]
+
+    def nm(srt):
+        return {'(_ BitVec 4)': 'BV', '(Array Int Int)': 'Arr'}.get(srt, srt)
+    out = []
+    for (rs, _, _) in sorts:
+        for (bs, comp, pcomp) in sorts:
+            if rs == bs:
+                continue
+            d = '(declare-fun zd_%s () %s)' % (nm(bs), bs)
+            out.append(d + '(define-fun zf () %s zd_%s)' % (rs, nm(bs)))
+            out.append(d + '(define-fun zf () %s %s)' % (rs, comp))
+            out.append('(define-fun zf ((zp %s)) %s zp)' % (bs, rs))
+            out.append('(define-fun zf ((zp %s)) %s %s)' % (bs, rs, pcomp))
+            out.append(d + '(define-fun zf ((zq Bool)) %s (ite zq zd_%s '
+                       'zd_%s))' % (rs, nm(bs), nm(bs)))
+    return [('define-fun-result-sort', {'ill-sorted'}, t) for t in out]
+
+
+CORNER_MALFORMED += _define_fun_sort_matrix()
+
+
 def text_to_tree(text):
     """Token tree of a text via the independent tokenizer."""
     def conv(x):
